@@ -158,8 +158,10 @@ pub fn generate(
     let binary_search_fn = if search_tables.is_empty() {
         quote!()
     } else {
+        let binary_search_fn_ident = ctx.binary_search_fn_ident();
         quote!(
-            fn binary_search(c: char, table: &[(char, char)]) -> bool {
+            #[allow(non_snake_case)]
+            fn #binary_search_fn_ident(c: char, table: &[(char, char)]) -> bool {
                 table
                     .binary_search_by(|(start, end)| match c.cmp(start) {
                         std::cmp::Ordering::Greater => {
@@ -186,6 +188,7 @@ pub fn generate(
                 .map(|(start, end)| quote!((#start, #end)))
                 .collect();
             quote!(
+                #[allow(non_upper_case_globals)]
                 static #ident: [(char, char); #n_ranges] = [
                     #(#pairs),*
                 ];
@@ -647,8 +650,9 @@ fn generate_state_char_arms(
     for (StateIdx(next_state), ranges) in state_ranges.into_iter() {
         let guard = if ranges.len() > MAX_GUARD_SIZE {
             let binary_search_table_id = ctx.add_search_table(ranges);
+            let binary_search_fn = ctx.binary_search_fn_ident();
 
-            quote!(binary_search(x, &#binary_search_table_id))
+            quote!(#binary_search_fn(x, &#binary_search_table_id))
         } else {
             let range_checks: Vec<TokenStream> = ranges
                 .into_iter()
@@ -944,8 +948,9 @@ fn generate_right_ctx_state_char_arms(
     for (StateIdx(next_state), ranges) in state_ranges.into_iter() {
         let guard = if ranges.len() > MAX_GUARD_SIZE {
             let binary_search_table_id = ctx.add_search_table(ranges);
+            let binary_search_fn = ctx.binary_search_fn_ident();
 
-            quote!(binary_search(x, &#binary_search_table_id))
+            quote!(#binary_search_fn(x, &#binary_search_table_id))
         } else {
             let range_checks: Vec<TokenStream> = ranges
                 .into_iter()
@@ -963,8 +968,9 @@ fn generate_right_ctx_state_char_arms(
     if !accept_ranges.is_empty() {
         let guard = if accept_ranges.len() > MAX_GUARD_SIZE {
             let binary_search_table_id = ctx.add_search_table(accept_ranges.into_iter().collect());
+            let binary_search_fn = ctx.binary_search_fn_ident();
 
-            quote!(binary_search(x, &#binary_search_table_id))
+            quote!(#binary_search_fn(x, &#binary_search_table_id))
         } else {
             let range_checks: Vec<TokenStream> = accept_ranges
                 .into_iter()
